@@ -1402,3 +1402,196 @@ def pydField (acc : Acc) (data : Option CState) (name : Name) (ann : Ann) (t : T
 """
     out += "end Dltype.Gen\n"
     return out
+
+
+# =====================================================================================================================
+# _tokenize_string_expr and _assert_token_list_valid  ->  Generated/TokLoop.lean
+# =====================================================================================================================
+#
+# Leaves: `_span_to_tok(character)` = `charTok c` (the three enums' value maps, tied to the source by Tables.operator_symbols);
+# `_span_to_tok(span) or _span_to_str_or_int(span)` = `spanTok span`; a token is an `int` / `str` / operator / group token /
+# specifier exactly when the model token is `.int` / `.str` / `.bin`,`.fn` / `.lp`,`.rp`,`.comma` / `.eq`.
+
+TOK_HEADER = """/-- enum member name of an operator token (fixed text) -/
+def tokOpName : Tok → Option String
+  | .bin .add => some "ADD" | .bin .sub => some "SUB" | .bin .mul => some "MUL" | .bin .exp => some "EXP" | .bin .div => some "DIV"
+  | .fn .min => some "MIN" | .fn .max => some "MAX" | .fn .isqrt => some "ISQRT"
+  | _ => none
+
+def tokIn (set : List String) (t : Tok) : Bool :=
+  match tokOpName t with
+  | some n => set.contains n
+  | none => false
+
+def _root_.Dltype.Tok.isStrOrInt : Tok → Bool | .str _ => true | .int _ => true | _ => false
+def _root_.Dltype.Tok.isStr : Tok → Bool | .str _ => true | _ => false
+def _root_.Dltype.Tok.isGroup : Tok → Bool | .lp => true | .rp => true | .comma => true | _ => false
+
+"""
+
+
+def gen_tokloop(lib_dir: str, header: str) -> str:
+    with open(os.path.join(lib_dir, "_parser.py")) as fh:
+        mod = ast.parse(fh.read(), filename="_parser.py")
+
+    def fn(name):
+        f = next((n for n in mod.body if isinstance(n, ast.FunctionDef) and n.name == name), None)
+        if f is None:
+            raise TErr(f"{name} not found")
+        return f
+
+    # ---- _assert_token_list_valid ----------------------------------------------------------------------------
+    f = fn("_assert_token_list_valid")
+    body = _strip(f.body)
+    conds = {
+        "len(tokenized) == 0": "ts.isEmpty",
+        "len(tokenized) == 1 and isinstance(tokenized[0], str | int)": "(match ts with | [t] => t.isStrOrInt | _ => false)",
+        "len(tokenized) == 2 and tokenized[0] == _DLTypeOperator.MUL and isinstance(tokenized[1], str)": "(match ts with | [a, b] => a == Tok.bin .mul && b.isStr | _ => false)",
+    }
+    pro = []
+    i = 0
+    while i < len(body) and isinstance(body[i], ast.If):
+        s = body[i]
+        c = conds.get(_src(s.test))
+        if c is None or s.orelse:
+            raise TErr(f"_assert_token_list_valid: condition `{_src(s.test)}`")
+        inner = [x for x in s.body if not (isinstance(x, ast.Assign) and isinstance(x.value, (ast.Constant, ast.JoinedStr)))]
+        if len(inner) == 1 and isinstance(inner[0], ast.Raise) and _src(inner[0].exc).startswith("SyntaxError"):
+            pro.append((c, "false"))
+        elif len(inner) == 1 and isinstance(inner[0], ast.Return) and inner[0].value is None:
+            pro.append((c, "true"))
+        else:
+            raise TErr(f"_assert_token_list_valid: branch `{_src(s)[:80]}`")
+        i += 1
+    rest = body[i:]
+    if not (len(rest) == 4 and isinstance(rest[0], ast.Assign) and isinstance(rest[1], ast.Assign) and isinstance(rest[2], ast.For) and isinstance(rest[3], ast.If)):
+        raise TErr("_assert_token_list_valid: expected two counters, the loop, the final comparison")
+    ctr = {}
+    for a in rest[:2]:
+        if not (isinstance(a.targets[0], ast.Name) and isinstance(a.value, ast.Constant) and isinstance(a.value.value, int)):
+            raise TErr(f"_assert_token_list_valid: `{_src(a)}`")
+        ctr[a.targets[0].id] = a.value.value
+    names = list(ctr)
+    loop = rest[2]
+    if not (_src(loop.iter) in ("reversed(tokenized)", "tokenized") and isinstance(loop.target, ast.Name) and not loop.orelse):
+        raise TErr("_assert_token_list_valid: the loop is not over the tokens")
+    tok = loop.target.id
+    tconds = {
+        f"{tok} in _unary_functions": "tokIn unaryFunctions tok",
+        f"{tok} in _binary_functions | _infix_operators": "(tokIn binaryFunctions tok || tokIn infixOperators tok)",
+        f"{tok} in _infix_operators | _binary_functions": "(tokIn infixOperators tok || tokIn binaryFunctions tok)",
+        f"isinstance({tok}, str | int)": "tok.isStrOrInt",
+        f"isinstance({tok}, _DLTypeGroupToken)": "tok.isGroup",
+    }
+
+    def step(stmts) -> str:
+        """statements of one branch: counter updates / continue / raise"""
+        upd = {n: 0 for n in names}
+        for s in stmts:
+            if isinstance(s, ast.AugAssign) and isinstance(s.target, ast.Name) and s.target.id in upd and isinstance(s.op, ast.Add) and isinstance(s.value, ast.Constant):
+                upd[s.target.id] += s.value.value
+            elif isinstance(s, ast.Continue):
+                break
+            elif isinstance(s, ast.Raise) and _src(s.exc).startswith("SyntaxError"):
+                return ".error .syntax"
+            else:
+                raise TErr(f"_assert_token_list_valid: statement `{_src(s)}` in the loop")
+        return f".ok ({names[0]} + {upd[names[0]]}, {names[1]} + {upd[names[1]]})"
+
+    node = loop.body
+    branches = []
+    while True:
+        node = [x for x in node if not (isinstance(x, ast.Expr) and isinstance(x.value, ast.Constant))]
+        if len(node) == 1 and isinstance(node[0], ast.If):
+            c = tconds.get(_src(node[0].test))
+            if c is None:
+                raise TErr(f"_assert_token_list_valid: condition `{_src(node[0].test)}`")
+            branches.append((c, step(node[0].body)))
+            node = node[0].orelse
+        else:
+            branches.append((None, step(node)))
+            break
+    fin = rest[3]
+    if not (isinstance(fin.test, ast.Compare) and len(fin.test.ops) == 1 and isinstance(fin.test.ops[0], (ast.NotEq, ast.Eq)) and {_src(fin.test.left), _src(fin.test.comparators[0])} == set(names)
+            and not fin.orelse and len(fin.body) == 1 and isinstance(fin.body[0], ast.Raise) and _src(fin.body[0].exc).startswith("SyntaxError")):
+        raise TErr("_assert_token_list_valid: the final comparison")
+    fin_ok = f"{names[0]} == {names[1]}" if isinstance(fin.test.ops[0], ast.NotEq) else f"{names[0]} != {names[1]}"
+
+    # ---- _tokenize_string_expr --------------------------------------------------------------------------------
+    g = fn("_tokenize_string_expr")
+    gb = _strip(g.body)
+    FLUSH = "return_list.append(_span_to_tok(current_span) or _span_to_str_or_int(current_span))"
+    want_tail = [f"if current_span:\n    {FLUSH}", "_assert_token_list_valid(return_list)", "return return_list"]
+    if not (len(gb) == 6 and _src(gb[0]).replace(": list[str | int | TokenT]", "") == "return_list = []" and _src(gb[1]) == "current_span = ''" and isinstance(gb[2], ast.For)
+            and [_src(x) for x in gb[3:]] == want_tail):
+        raise TErr("_tokenize_string_expr: expected `return_list = []; current_span = ''; for character in expression: ...; flush; validate; return`: "
+                   + " ; ".join(_src(x)[:50] for x in gb))
+    loop = gb[2]
+    if not (_src(loop.target) == "character" and _src(loop.iter) == "expression" and not loop.orelse):
+        raise TErr("_tokenize_string_expr: the loop is not `for character in expression`")
+    lb = [x for x in loop.body]
+    sp = lb[0]
+    if not (len(lb) == 2 and isinstance(sp, ast.If) and _src(sp.test) == "character == ' '" and not sp.orelse
+            and isinstance([x for x in sp.body if not isinstance(x, ast.Assign)][0], ast.Raise)):
+        raise TErr("_tokenize_string_expr: the space test")
+    tk = lb[1]
+    if not (isinstance(tk, ast.If) and _src(tk.test) == "(token := _span_to_tok(character))"
+            and [_src(x) for x in tk.body] == [f"if current_span:\n    {FLUSH}", "current_span = ''", "return_list.append(token)"]
+            and [_src(x) for x in tk.orelse] == ["current_span += character"]):
+        raise TErr("_tokenize_string_expr: the token / span branches: " + " ; ".join(_src(x)[:60] for x in [*tk.body, *tk.orelse]))
+
+    out = header
+    out += "import DltypeModel.Tokenizer\nimport DltypeModel.Generated.ParserTables\nset_option linter.unusedVariables false\nnamespace Dltype.Gen\nopen Dltype\n\n"
+    out += TOK_HEADER
+    out += f"/-- one iteration of the counting loop of `_assert_token_list_valid` -/\ndef countStep (tok : Tok) ({names[0]} {names[1]} : Nat) : Except ParseErr (Nat × Nat) :=\n"
+    for c, r in branches:
+        out += (f"  if {c} then {r} else\n" if c is not None else f"  {r}\n")
+    out += f"""
+/-- loop skeleton (fixed text): the tokens in any order (the loop only adds to two counters or stops) -/
+def countLoop : List Tok → Nat → Nat → Except ParseErr (Nat × Nat)
+  | [], a, b => .ok (a, b)
+  | tok :: rest, a, b =>
+    match countStep tok a b with
+    | .ok (a', b') => countLoop rest a' b'
+    | .error e => .error e
+
+/-- after the loop: `if n_expected_args != n_actual_args: raise SyntaxError` (or the negation, as the source has it) -/
+def countResult : Except ParseErr (Nat × Nat) → Bool
+  | .error _ => false
+  | .ok (NAME0, NAME1) => FINOK
+
+/-- `_assert_token_list_valid` (true = returns normally, false = SyntaxError) -/
+def tokensValid (ts : List Tok) : Bool :=
+""".replace("NAME0", names[0]).replace("NAME1", names[1]).replace("FINOK", fin_ok)
+    for c, r in pro:
+        out += f"  if {c} then {r} else\n"
+    out += f"  countResult (countLoop ts {ctr[names[0]]} {ctr[names[1]]})\n\n"
+    out += """/-- one iteration of the character loop of `_tokenize_string_expr`: the token list so far and the current span -/
+def tokStep (character : Char) (return_list : List Tok) (current_span : List Char) : Except ParseErr (List Tok × List Char) :=
+  if character = ' ' then .error .syntax else
+  match charTok character with
+  | some token =>
+    let return_list := if !current_span.isEmpty then return_list ++ [spanTok current_span] else return_list
+    let current_span : List Char := []
+    .ok (return_list ++ [token], current_span)
+  | none => .ok (return_list, current_span ++ [character])
+
+/-- loop skeleton (fixed text): `for character in expression` -/
+def tokLoop : List Char → List Tok → List Char → Except ParseErr (List Tok × List Char)
+  | [], l, span => .ok (l, span)
+  | c :: cs, l, span =>
+    match tokStep c l span with
+    | .ok (l', span') => tokLoop cs l' span'
+    | .error e => .error e
+
+/-- `_tokenize_string_expr` -/
+def tokenize (expression : List Char) : Except ParseErr (List Tok) :=
+  match tokLoop expression [] [] with
+  | .error e => .error e
+  | .ok (return_list, current_span) =>
+    let return_list := if !current_span.isEmpty then return_list ++ [spanTok current_span] else return_list
+    if tokensValid return_list then .ok return_list else .error .syntax
+
+end Dltype.Gen
+"""
+    return out
